@@ -187,7 +187,7 @@ def check(an: Analysis) -> None:
     # ------------------------------------------------------------------ C05.7 __class_getitem__ arity
     ob = an.ob("C05.7", "K5 arity", "every explicit .__class_getitem__(...) call passes exactly one positional argument (State.__class_getitem__ and typing.Generic take a single parameter; several generic arguments travel as one tuple)")
     n_sites = 0
-    for fi in prog.functions.values():
+    for fi in prog.scan_functions():
         for c in fi.own_nodes():
             if isinstance(c, ast.Call) and isinstance(c.func, ast.Attribute) and c.func.attr == "__class_getitem__":
                 n_sites += 1
@@ -252,7 +252,7 @@ def check(an: Analysis) -> None:
         if w is not None:
             ob.fail(f, None, "a non-matching value falls through and is accepted as None", CFG.show_path(w))
     ob = an.ob("C05.10", "K10", "validators are resolved from the annotation object itself: no module-level cache keyed by a rendered (str/repr/name/hash) annotation, whose rendering is not injective")
-    ob.inst(None, None, f"{len([f for f in prog.functions.values() if f.module.name.startswith('haiway.state')])} functions of haiway.state scanned")
+    ob.inst(None, None, f"{len([f for f in prog.scan_functions() if f.module.name.startswith('haiway.state')])} functions of haiway.state scanned")
     for fi, n in lossy_cache_uses(an):
         ob.inst(fi, n)
         ob.fail(fi, n, "a validator / annotation cache is keyed by a rendering of the annotation: different annotations that print alike (Literal[1] vs Literal['1'], two classes named alike) share a validator - conforming values are rejected and non-conforming ones accepted, depending on definition order")
@@ -274,7 +274,7 @@ def lossy_cache_uses(an: Analysis, module_prefix: str = "haiway.state"):
     """Lookups / stores in a module-level container keyed by a *rendered* annotation (str()/repr()/f-string):
     AttributeAnnotation.__str__ is not injective (Literal[1] vs Literal["1"], same-named classes)."""
     out = []
-    for fi in an.prog.functions.values():
+    for fi in an.prog.scan_functions():
         if not fi.module.name.startswith(module_prefix):
             continue
         for n in fi.own_nodes():
